@@ -134,6 +134,8 @@ def make_hoomd(recipe):
     # gsd itself delivers uint32; a duck-typed frame may carry any integer type
     typeid = rng.integers(0, K, size=N).astype(np.dtype(recipe.get("tid_dtype", "uint32")))
     step = int(rng.integers(0, 1000))
+    if recipe.get("bigstep"):
+        step += 2 ** 63 - 10 ** 6                     # late in a very long run: beyond int64 after a few frames
     for _t in range(T):
         n_t = N
         if recipe.get("nvary") and _t > 0:
@@ -147,8 +149,8 @@ def make_hoomd(recipe):
         box = np.array([Lt[0], Lt[1], Lt[2], 0, 0, 0], dtype=np.float32)
         # real GSD files store unchanged arrays once: frames may hand out the very same object
         tid = typeid if (recipe.get("share_typeid") and n_t == N) else typeid[:n_t].copy()
-        frames.append(FakeFrame(step, ndim, box, tid, pos))
-        step += int(rng.integers(1, 5000))
+        frames.append(FakeFrame(np.uint64(step) if recipe.get("bigstep") else step, ndim, box, tid, pos))
+        step += int(rng.integers(1, 5000)) if not recipe.get("bigstep") else int(rng.integers(1, 10 ** 6))
     xyz = (rng.normal(0, 20.0, size=(T, N, 3))).astype(np.float32)
     if ndim == 2:
         xyz[:, :, 2] = 0.0
@@ -415,6 +417,12 @@ class World(WorldBase):
         name = rng.choice(ok)
         op = {"op": "reread", "reader": name}
         rd, path, kind, opts = self.readers[name]
+        if kind in ("dump", "center", "vector") and rng.random() < 0.2:
+            # the client points its reader at another dump (same dimension) by assigning the attribute
+            others = sorted(p for p, d in self.dumps.items() if p != path and d["ndim"] == rd.ndim
+                            and (kind != "vector" or max(opts) <= 2 + d["ndim"] + len(d["names"])))
+            if others:
+                op["refile"] = rng.choice(others)
         lk = [k for k in self.swarm["faults"] if k in LINE_FAULTS]
         if lk and not path.endswith(".gsd") and rng.random() < 0.5:
             # crash-point sweep of a long-lived reader: its read is cancelled (or runs out of
@@ -423,7 +431,7 @@ class World(WorldBase):
         if kind in ("center", "vector") and rng.random() < 0.6:
             # between two reads the client changes the options of its long-lived reader: the
             # object it passed (held by the reader by reference) edited in place, or a new one assigned
-            d = self.dumps[path]
+            d = self.dumps[op.get("refile", path)]
             how = rng.choice(["inplace", "assign"])
             if kind == "center":
                 keys = sorted(opts)
@@ -483,6 +491,7 @@ class World(WorldBase):
         return {"ndim": rng.choice([2, 3]), "N": rng.randint(1, 10), "T": rng.randint(1, 5),
                 "K": rng.randint(1, 4), "nvary": (not dcd) and rng.random() < 0.3, "grow": (not dcd) and rng.random() < 0.15,
                 "share_typeid": rng.random() < 0.4, "boxvary": rng.random() < 0.3,
+                "bigstep": rng.random() < 0.12,
                 "tid_dtype": rng.choice(["uint32", "uint32", "uint32", "int32", "int32", "int64", "uint8"]),
                 "subseed": rng.randrange(1 << 40)}
 
@@ -500,7 +509,7 @@ class World(WorldBase):
 
     def gen_write_log(self, rng):
         return {"op": "write_log", "path": rng.choice(LOGS),
-                "recipe": {"nsec": rng.randint(0, 4), "maxrows": rng.choice([2, 6]),
+                "recipe": {"nsec": rng.randint(0, 4), "maxrows": rng.choice([2, 6, 6, 40]),
                            "tail": rng.choice(["none", "none", "full-rows", "partial-row"]),
                            "nonfinite": rng.random() < 0.3, "unicode": rng.random() < 0.3, "crlf": rng.random() < 0.15,
                            "cr_meter": rng.random() < 0.25,
@@ -758,6 +767,13 @@ class World(WorldBase):
             pristine, xyz0, _l = make_hoomd(h["recipe"])
             self._judge_hoomd(rd.snapshots, pristine, xyz0, h["recipe"]["ndim"], dcd, ("gsd-dcd" if dcd else "gsd") + "-file")
             return f"{path} re-read through {op['reader']}"
+        if op.get("refile"):
+            if op["refile"] not in self.dumps or self.dumps[op["refile"]]["ndim"] != rd.ndim:
+                raise Refuse("no such dump of the reader's dimension")
+            path = op["refile"]
+            rd.filename = path
+            self.readers[op["reader"]] = (rd, path, kind, opts)
+            self.ctx.probe("reader_pointed_at_another_file")
         d = self._frames(path)
         if d["ndim"] != rd.ndim:
             raise Refuse("dump rewritten in another dimension than the reader was built for")
